@@ -544,12 +544,14 @@ def random_layout(rng, wrap=None, noise=None):
     return Layout(
         wrap=wrap, eol=rng.choice(['\n', '\n', '\r\n']), sep=rng.choice(['space', 'space', 'tab', 'mixed', 'column']),
         seed=rng.getrandbits(48), comment_p=0.0 if quiet else rng.choice([0.0, 0.05, 0.15, 0.4]),
-        blank_p=0.0 if quiet else rng.choice([0.0, 0.05, 0.15, 0.4]), pad_max=rng.choice([0, 1, 3, 8, 20]),
+        blank_p=0.0 if quiet else rng.choice([0.0, 0.05, 0.15, 0.4]),
+        # "any amount of space padding": rarely thousands of blanks, so that single lines exceed common buffer sizes (4 KiB, 8 KiB)
+        pad_max=rng.choice([0, 1, 3, 8, 20] * 6 + [2500, 9000]),
         title_style=rng.randrange(4), num_style=rng.choice(['fixed', 'fixed', 'zeros', 'exp', 'mixed']),
         final_eol=rng.random() < 0.85, a_heading=rng.choice(['none', 'title', 'names', 'names']),
         lead_noise=(not quiet) and rng.random() < 0.4,
         wrap_text=rng.choice(['YES', 'YES', 'Yes', 'yes'] if wrap else ['NO', 'NO', 'No', 'no']),
-        col_width=rng.choice([8, 10, 12, 16]))
+        col_width=rng.choice([8, 10, 12, 16] * 8 + [700, 3000]))
 
 
 def plain_layout(wrap=False, eol='\n', seed=0):
